@@ -66,11 +66,31 @@ class SimLoop(asyncio.SelectorEventLoop):
         return self._vnow
 
     # executor accounting -------------------------------------------------
+    exec_delay = 0.0    # virtual seconds an executor job appears to take (0: whatever the real thread needs, a few iterations)
+
     def run_in_executor(self, executor, func, *args):
         fut = super().run_in_executor(executor, func, *args)
         self._exec_outstanding += 1
         fut.add_done_callback(self._exec_done)
-        return fut
+        delay = self.exec_delay
+        if not delay:
+            return fut
+        # the job runs in its real thread; its result is handed over `delay` virtual seconds later, so that "the worker is
+        # inside a file operation of the executor" is a state with a duration that events can fall into
+        outer = self.create_future()
+
+        def deliver():
+            if outer.done():
+                return
+            if fut.cancelled():
+                outer.cancel()
+            elif fut.exception() is not None:
+                outer.set_exception(fut.exception())
+            else:
+                outer.set_result(fut.result())
+        fut.add_done_callback(lambda f: self.call_later(delay, deliver))
+        outer.add_done_callback(lambda f: f.cancelled() and fut.cancel())
+        return outer
 
     def _exec_done(self, fut):
         self._exec_outstanding -= 1
